@@ -203,8 +203,15 @@ def parse(
                 )
 
             else:
+                if structure_cls == structure.ListLiteral:
+                    # every list item becomes a function of its own, so an
+                    # early exit inside it cannot target an enclosing
+                    # loop or lambda
+                    inner_parent = structure_cls
+                else:
+                    inner_parent = parent or structure_cls
                 branches = list(
-                    map(lambda x: parse(x, parent or structure_cls), branches)
+                    map(lambda x: parse(x, inner_parent), branches)
                 )
                 structures.append(structure_cls(*branches))
 
